@@ -64,3 +64,59 @@ func H_C05_lemma_isValidAlias_order() {
 	got := f.isValidAlias(alias)
 	verifAssert(got == want, "isValidAlias is order independent: valid iff '.' or not reserved and not a registered name")
 }
+
+// One registration step from an arbitrary valid import table (inductive step): the table
+// already holds two imports under arbitrary names; whatever they are, the name chosen for
+// a further path is legal and different from both. Covers histories of any length that
+// lead to such a table.
+func H_C05_step() {
+	impSummaries()
+	canonicalMapOrder()
+	f := NewFile("p")
+	impPrefix(f)
+	n0, n1 := nondetString("n0"), nondetString("n1")
+	verifAssume(verifMatch(n0, reIdent))
+	verifAssume(verifMatch(n1, reIdent))
+	verifAssume(n0 != n1)
+	f.imports["pre.example/0"] = importdef{name: n0, alias: nondetBool("a0")}
+	f.imports["pre.example/1"] = importdef{name: n1, alias: nondetBool("a1")}
+	p := impPath(0)
+	verifAssume(p != "pre.example/0")
+	verifAssume(p != "pre.example/1")
+	impHint(f, 0, p)
+	q := f.register(p)
+	verifObserve("q", q)
+	verifAssert(verifMatch(q, reIdent), "import name is an identifier")
+	verifAssert(!specIsGoReserved(q), "import name is neither a keyword nor predeclared")
+	verifAssert(q != n0 && q != n1, "the new name differs from every name already in the table")
+	verifAssert(f.imports[p].name == q, "and is what the table records")
+}
+
+// Many paths competing for one base name: base1..base7 are taken, so the next candidate is
+// base8 - which for int/uint is itself predeclared (int8, uint8).
+func H_C05_numbered() {
+	impSummaries()
+	canonicalMapOrder()
+	verifUnwind(40)
+	f := NewFile("p")
+	base := nondetString("base")
+	verifAssume(verifMatch(base, `[a-z]+`))
+	taken := []string{"pre.example/1", "pre.example/2", "pre.example/3", "pre.example/4", "pre.example/5", "pre.example/6", "pre.example/7"}
+	f.imports["pre.example/0"] = importdef{name: base, alias: true}
+	for i, k := range taken {
+		f.imports[k] = importdef{name: base + verifItoa(i+1), alias: true}
+	}
+	p := impPath(0)
+	for _, k := range taken {
+		verifAssume(p != k)
+	}
+	verifAssume(p != "pre.example/0")
+	f.ImportAlias(p, base)
+	q := f.register(p)
+	verifObserve("q", q)
+	verifAssert(!specIsGoReserved(q), "a numbered name is still neither a keyword nor predeclared")
+	verifAssert(q != base, "and not the taken base name")
+	for i := range taken {
+		verifAssert(q != base+verifItoa(i+1), "nor a taken numbered name")
+	}
+}
